@@ -270,6 +270,16 @@ class QueueBridge(object):
 
 # ------------------------------------------------------------------------------
 #
+def _settle():
+    '''the real end points sleep 10 ms after connecting (`time.sleep(0.01)` in
+    the constructors of ru.zmq.Publisher / Subscriber / Putter): other threads
+    run while a component is still wiring itself up.  A knob of the world
+    (`sim.data['settle']`, off by default; C16 switches it on)'''
+    sim = _sim()
+    if sim is not None and sim.in_sim_thread() and sim.data.get('settle'):
+        sim.sleep(sim.data['settle'])
+
+
 class Publisher(object):
 
     def __init__(self, channel, url=None, log=None, prof=None, path=None):
@@ -280,6 +290,7 @@ class Publisher(object):
         self._owner   = sim.current.group if sim.current else None
         self._uid     = sim.uniq('%s.pub' % channel)
         self._last    = dict()      # subscriber -> last deliver_at (FIFO)
+        _settle()
 
     def __deepcopy__(self, memo):
         return self
@@ -370,6 +381,7 @@ class Subscriber(object):
         self._faulty    = True
         self._interactive = True
         self._bridge.subs.append(self)
+        _settle()
         for t in _ru.as_list(topic):
             self.subscribe(t, cb)
 
